@@ -41,6 +41,12 @@ Definition xstart (t : toc) : xstate * list out :=
 Definition x_on_packet (s : xstate) (chan : Z) (data : list Z) : xstate * list out :=
   if negb (x_reg s) then (s, []) else
   if negb (chan =? 3) then (s, []) else
+  (* pk.data[0] == MISC_GET_EXTENDED_TYPE (fix 31eaf9d): value-updated notifications and replies to other
+     misc commands for the same parameter are not answers; an empty packet raises IndexError *)
+  match data with
+  | [] => (s, [Raised IndexError])
+  | cmd :: _ =>
+  if negb (cmd =? 2) then (s, []) else
   let idb := firstn 2 (tl data) in
   if (List.length idb <? 2)%nat then (s, [Raised StructError]) else
   let var_id := le_val idb in
@@ -57,6 +63,7 @@ Definition x_on_packet (s : xstate) (chan : Z) (data : list Z) : xstate * list o
            | i :: q => (mkX q i cnt t' true true, [Send (ext_req i)])
            | [] => (mkX [] (-1) cnt t' false true, [])
            end
+  end
   end.
 
 (* device: extended type byte per parameter id (no answer for ids it does not know) *)
@@ -93,8 +100,14 @@ Fixpoint xrun (d : xdev) (s : xstate) (outs : list out) (evs : list aev) : xstat
 Definition xfetch (t : toc) (d : xdev) (evs : list aev) : xstate * list out :=
   let '(s0, o0) := xstart t in xrun d s0 o0 evs.
 
+(* what the adversary may deliver besides (duplicated, stale, delayed) extended-type replies: any packet on
+   another channel, and on the misc channel any packet of another command (value-updated notifications,
+   replies to persistent-store/-state/default-value requests), whatever parameter id it carries *)
+Definition not_ext_reply (ch : Z) (dt : list Z) : Prop :=
+  ch <> 3 \/ exists cmd rest, dt = cmd :: rest /\ cmd <> 2.
+
 Definition xadmissible (evs : list aev) : Prop :=
-  Forall (fun ev => match ev with Deliver _ => True | Raw ch _ => ch <> 3 end) evs.
+  Forall (fun ev => match ev with Deliver _ => True | Raw ch dt => not_ext_reply ch dt end) evs.
 
 Definition enc_xrun (r : xstate * list out) : list Z :=
   let '(s, o) := r in
